@@ -103,6 +103,15 @@ def check(run, model, tier):
              '' if snap else ('the cancel-all loop iterates %s: cancel_events pops and rotates that deque while it is being iterated '
                               '(RuntimeError "deque mutated during iteration", or sources skipped)' % norm(it)) if live else 'cancel-all iterates %s, not the tracked sources' % norm(it),
              node=lh.stmt, obligation=True)
+    # the snapshot is taken after the thread has ended: a step still in flight may arm a new timed source, which an earlier snapshot misses
+    snapnodes = [lh]
+    if isinstance(it, ast.Name):
+        snapnodes = [m_ for m_ in g.nodes if m_.kind == 'stmt' and isinstance(m_.ast, ast.Assign) and any(isinstance(t_, ast.Name) and t_.id == it.id for t_ in m_.ast.targets)]
+    ok = bool(snapnodes) and all(g.exists_path(j0, m_) and not g.exists_path(m_, j0) for m_ in snapnodes)
+    run.inst('SNAPSHOT.cancel', stop, 'the snapshot of the tracked sources is taken after the join', ok,
+             '' if ok else ('the list of timed sources to cancel is read before the object\'s thread has been joined: a handler that is still running when stop() is called can arm a '
+                            'new timed source after the snapshot; it is never cancelled and keeps posting after stop() has returned'),
+             node=snapnodes[0].ast if snapnodes and snapnodes[0].kind == 'stmt' else lh.stmt, obligation=True)
     tv = lh.stmt.target.id if isinstance(lh.stmt.target, ast.Name) else None
     for n in cancel:
         for c in n.calls():
